@@ -121,3 +121,37 @@ Fixpoint pool_run (p : pool) (ops : list Z) (done : Z) : pool * Z :=
 
 (* suffix [1<<maxWidth]uint8, prefix [1<<maxWidth]uint16, output [2<<maxWidth]byte *)
 Definition lzw_table_bytes : Z := Z.of_N tabLen + 2 * Z.of_N tabLen + Z.of_N outLen.
+
+(* ---- DCT, progressive: the cap on passes over the coefficient buffer ---- *)
+
+(* processSOS, progressive: every block iteration - coded, skipped by an EOB run, first pass
+   or refinement - does  progVisits++; if progVisits > maxProgPasses*totalProgBlocks: error.
+   totalProgBlocks is the number of coefficient blocks allocated (and charged) so far. *)
+Record pwork := PW { w_visits : Z; w_total : Z }.
+
+Definition pass_cap (st : pwork) : Z := jpeg_maxProgPasses * w_total st.
+
+(* the loop over the blocks of one scan, block by block *)
+Fixpoint scan_iter (n : nat) (st : pwork) : pwork * bool :=
+  match n with
+  | O => (st, true)
+  | S n' =>
+    let st' := PW (w_visits st + 1) (w_total st) in
+    if pass_cap st' <? w_visits st' then (st', false) else scan_iter n' st'
+  end.
+
+(* the same in closed form *)
+Definition scan_fast (n : Z) (st : pwork) : pwork * bool :=
+  if w_visits st + n <=? pass_cap st then (PW (w_visits st + n) (w_total st), true)
+  else (PW (Z.max (w_visits st + 1) (pass_cap st + 1)) (w_total st), false).
+
+(* a scan: [fresh] blocks allocated for components seen for the first time, [n] blocks walked *)
+Fixpoint run_scans (scans : list (Z * Z)) (st : pwork) : pwork * bool :=
+  match scans with
+  | [] => (st, true)
+  | (fresh, n) :: r =>
+    match scan_fast n (PW (w_visits st) (w_total st + fresh)) with
+    | (st', true) => run_scans r st'
+    | (st', false) => (st', false)
+    end
+  end.
